@@ -16,7 +16,7 @@ import (
 func init() {
 	register(&Rule{ID: "DECL-1", Props: []string{"C06", "C15", "C17", "C18", "C19", "C12", "C02"}, Floor: 30,
 		Doc: "every container literal of the declaration family copies Name, Desc, EnvVar, HideValue, SetByUser and the value() result from the same parameter and goes to the registration function matching the case type (…Opt / …Arg)", Run: decl1})
-	register(&Rule{ID: "DECL-2", Props: []string{"C06", "C18"}, Floor: 28,
+	register(&Rule{ID: "DECL-2", Props: []string{"C06", "C18", "C17"}, Floor: 28,
 		Doc: "short forms build the struct from the like-named parameters and delegate to the typed method", Run: decl2})
 	register(&Rule{ID: "DECL-3", Props: []string{"C06", "C02"}, Floor: 14,
 		Doc: "XOpt.value and XArg.value call the same values.NewX(into, recv.Value), allocate iff into == nil and return that into", Run: decl3})
